@@ -571,3 +571,216 @@ def ops_of(t, acc=None):
             if isinstance(c, tuple):
                 ops_of(c, acc)
     return acc
+
+
+# ------------------------------------------------------------------ array forms -------------
+# The operators that exist on arrays (front/typecheck.c expr_neg_check_type,
+# expr_add_sub_check_type, expr_mul_check_type; back/vmexec.c vm_execute_op_*_arr_<type>):
+#   neg     - a                 every element negated                    (1-D, 2-D)
+#   add     a + b               element-wise, same element type and dimensions
+#   sub     a - b
+#   smul    s * a               scalar (int/long/float/double, converted to the ELEMENT type as
+#                               by an assignment) times every element
+#   matmul  a * b               2-D x 2-D matrix product: sum = 0; sum += a[i,k] * b[k,j]
+# for the element types int, long, float, double.  Metamorphic oracle: every element of the
+# result equals the SCALAR operators applied to the elements; expected value per element also
+# from the Coq model (rt_eval on the element tree) and pyref.
+
+ARR_OPS = ["neg", "add", "sub", "smul", "matmul"]
+ARR_KINDS = ["i", "l", "f", "d"]
+ARR_SHAPES = {"neg": [(1,), (3,), (2, 2), (1, 3)], "add": [(1,), (3,), (2, 2), (2, 3)],
+              "sub": [(1,), (3,), (2, 2), (3, 1)], "smul": [(1,), (3,), (2, 2), (1, 3)],
+              "matmul": [((2, 2), (2, 2)), ((1, 3), (3, 1)), ((2, 3), (3, 2)), ((3, 1), (1, 2))]}
+ARR_FORMS = ["lit", "var", "computed"]
+
+
+def _f(x):
+    return al.bits_of_f32(x)
+
+
+def _d(x):
+    return al.bits_of_f64(x)
+
+
+# operand pairs at the precision boundaries of each element type: 2^24 +- 1 (float), 2^53 +- 1
+# (double), more than 24 significant bits in a double, 2^31 / 2^63 wrap-around for the integers
+ARR_PAIRS = {
+    "i": [(al.INT_MAX, 1), (al.INT_MIN, -1), (2 ** 30, 2 ** 30), (46341, 46341), (65536, 65536),
+          (-2147483647, 2), (123456789, -1000)],
+    "l": [(al.LONG_MAX, 1), (al.LONG_MIN, -1), (2 ** 31, 2 ** 31), (2 ** 62, 2 ** 62), (3037000500, 3037000500),
+          (2 ** 32 + 1, 2 ** 32 - 1), (5000000000, -3)],
+    "f": [(_f(16777216.0), _f(1.0)), (_f(16777215.0), _f(1.0)), (_f(16777216.0), _f(3.0)), (_f(16777215.0), _f(0.5)),
+          (_f(0.1), _f(0.2)), (_f(4097.0), _f(4097.0)), (0x7F7FFFFF, 0x7F7FFFFF), (0x00000001, _f(0.5)),
+          (_f(-16777216.0), _f(-1.0)), (0x80000000, 0x00000000)],
+    "d": [(_d(16777216.0), _d(1.0)), (_d(9007199254740992.0), _d(1.0)), (_d(9007199254740991.0), _d(1.0)),
+          (_d(9007199254740993.0), _d(2.0)), (_d(0.1), _d(0.2)), (_d(1234567890.25), _d(0.5)),
+          (_d(94906267.0), _d(94906267.0)), (_d(16777217.0), _d(16777217.0)), (_d(9007199254740.0), _d(0.5)),
+          (0x7FEFFFFFFFFFFFFF, 0x7FEFFFFFFFFFFFFF), (0x0000000000000001, _d(0.5)),
+          (_d(-9007199254740992.0), _d(-1.0)), (0x8000000000000000, 0x0000000000000000)],
+}
+ARR_SCALARS = {"i": [3, -1, al.INT_MAX, 46341], "l": [3, 5000000000, -(2 ** 31) - 1, al.LONG_MAX],
+               "f": [_f(1.5), _f(16777216.0), _f(-0.5), _f(3.75)],
+               "d": [_d(1.5), _d(16777217.0), _d(-0.1), _d(3000000000.5)]}
+KIND_ZERO = {"i": "0", "l": "0L", "f": "0.0f", "d": "0.0d"}
+KIND_ONE = {"i": "1", "l": "1L", "f": "1.0f", "d": "1.0d"}
+
+
+def _finite(kind, v):
+    return kind in "il" or (al.is_finite32(v) if kind == "f" else al.is_finite64(v))
+
+
+def arr_value(rng, kind):
+    while True:
+        v = ac.pick_value(rng, kind, 0.5)
+        if _finite(kind, v):
+            return v
+
+
+def gen_arr_case(rng, op, kind, shape, form, n):
+    """one array-form case; n = running number (selects the boundary pair)"""
+    pair = ARR_PAIRS[kind][n % len(ARR_PAIRS[kind])]
+    case = {"op": op, "kind": kind, "shape": shape, "form": form}
+    if op == "matmul":
+        (m, k), (k2, p) = shape
+        a = [arr_value(rng, kind) for _ in range(m * k)]
+        b = [arr_value(rng, kind) for _ in range(k * p)]
+        # the boundary pair meets in the first product of element (0, 0); small partners elsewhere
+        a[0], b[0] = pair
+        if rng.random() < 0.5:
+            small = {"i": [1, -1, 2], "l": [1, -1, 2], "f": [_f(1.0), _f(-1.0), _f(0.5)], "d": [_d(1.0), _d(-1.0), _d(0.5)]}[kind]
+            a[1:] = [rng.choice(small) for _ in a[1:]]
+        case.update({"a": a, "b": b, "dims_a": (m, k), "dims_b": (k, p), "dims_r": (m, p)})
+        return case
+    dims = shape
+    cnt = 1
+    for x in dims:
+        cnt *= x
+    a = [arr_value(rng, kind) for _ in range(cnt)]
+    a[0] = pair[0]
+    case.update({"a": a, "dims_a": dims, "dims_r": dims})
+    if op in ("add", "sub"):
+        b = [arr_value(rng, kind) for _ in range(cnt)]
+        b[0] = pair[1]
+        if cnt > 1:
+            other = ARR_PAIRS[kind][(n + 3) % len(ARR_PAIRS[kind])]
+            a[cnt - 1], b[cnt - 1] = other
+        case.update({"b": b, "dims_b": dims})
+    if op == "smul":
+        ks = ARR_KINDS[n % 4]
+        s = ARR_SCALARS[ks][(n // 4) % len(ARR_SCALARS[ks])]
+        if ks == kind and n % 3 == 0:
+            s = pair[1]
+        case.update({"ks": ks, "s": s})
+    return case
+
+
+def shape_name(case):
+    if case["op"] == "matmul":
+        return "%dx%d*%dx%d" % (case["dims_a"] + case["dims_b"])
+    return "x".join(str(x) for x in case["dims_a"])
+
+
+def shape_class(case):
+    return "matrix-product" if case["op"] == "matmul" else "%d-D" % len(case["dims_a"])
+
+
+def _elem_text(kind, v):
+    return ac.expr_text(ac.value_tree(kind, v), lambda i, leaf: ac.lit_text(leaf, {}))
+
+
+def _arr_text(kind, vals, dims, elem):
+    """array literal over the element texts elem(n)"""
+    if len(dims) == 1:
+        body = "[ %s ]" % ", ".join(elem(n) for n in range(dims[0]))
+    else:
+        rows = []
+        for i in range(dims[0]):
+            rows.append("[ %s ]" % ", ".join(elem(i * dims[1] + j) for j in range(dims[1])))
+        body = "[ %s ]" % ", ".join(rows)
+    return "%s : %s" % (body, ac.KIND_TY[kind])
+
+
+def _index_text(name, dims, n):
+    if len(dims) == 1:
+        return "%s[%d]" % (name, n)
+    return "%s[%d, %d]" % (name, n // dims[1], n % dims[1])
+
+
+def arr_programs(case, n):
+    """(array-form program, scalar program): both return element n of the result; the scalar one
+    computes it with the scalar operators on the elements of the same arrays"""
+    kind, form, op = case["kind"], case["form"], case["op"]
+    ty = ac.KIND_TY[kind]
+    lines = []
+
+    def build(name, vals, dims):
+        if form == "lit":
+            lines.append("let %s = %s;" % (name, _arr_text(kind, vals, dims, lambda m: _elem_text(kind, vals[m]))))
+        elif form == "var":
+            for m, v in enumerate(vals):
+                lines.append("var %s_%d = %s;" % (name, m, _elem_text(kind, v)))
+            lines.append("let %s = %s;" % (name, _arr_text(kind, vals, dims, lambda m: "%s_%d" % (name, m))))
+        else:       # computed: the array comes out of another array operation (1 * literal array)
+            lines.append("let %s = one * %s;" % (name, _arr_text(kind, vals, dims, lambda m: _elem_text(kind, vals[m]))))
+    if form == "computed":
+        lines.append("var one = %s;" % KIND_ONE[kind])
+    build("a", case["a"], case["dims_a"])
+    if "b" in case:
+        build("b", case["b"], case["dims_b"])
+    if op == "smul":
+        stext = _elem_text(case["ks"], case["s"])
+        if form == "lit":
+            arr_expr = "%s * a" % stext
+        else:
+            lines.append("var s = %s;" % stext)
+            arr_expr = "s * a"
+        lines_s = ["var c = %s;" % KIND_ZERO[kind], "c = %s;" % (stext if form == "lit" else "s")]
+        sc_expr = "c * %s" % _index_text("a", case["dims_a"], n)
+    elif op == "neg":
+        arr_expr, lines_s = "- a", []
+        sc_expr = "- %s" % _index_text("a", case["dims_a"], n)
+    elif op in ("add", "sub"):
+        sym = ac.BINSYM[op]
+        arr_expr, lines_s = "a %s b" % sym, []
+        sc_expr = "%s %s %s" % (_index_text("a", case["dims_a"], n), sym, _index_text("b", case["dims_b"], n))
+    else:
+        (m, k), (_, p) = case["dims_a"], case["dims_b"]
+        i, j = n // p, n % p
+        arr_expr = "a * b"
+        lines_s = ["var z = %s;" % KIND_ZERO[kind]]
+        sc_expr = "z"
+        for q in range(k):
+            sc_expr = "(%s + a[%d, %d] * b[%d, %d])" % (sc_expr, i, q, q, j)
+    head = "\n  ".join(lines)
+    pa = "func main() -> %s {\n  %s\n  let r = %s;\n  %s\n}" % (ty, head, arr_expr, _index_text("r", case["dims_r"], n))
+    ps = "func main() -> %s {\n  %s\n  %s\n  %s\n}" % (ty, head, "\n  ".join(lines_s), sc_expr)
+    return pa, ps
+
+
+def arr_elem_tree(case, n):
+    """the element computation as an expression tree over leaves of the element kind (for the
+    extracted model and pyref); None if the scalar conversion of s * a is undefined in C"""
+    kind, op = case["kind"], case["op"]
+    L = lambda v: ac.atom(ac.value_tree(kind, v))
+    if op == "neg":
+        return ("U", "neg", L(case["a"][n]))
+    if op in ("add", "sub"):
+        return ("B", op, L(case["a"][n]), L(case["b"][n]))
+    if op == "smul":
+        c = ac.convert(case["ks"], kind, case["s"])
+        if c is None:
+            return None
+        return ("B", "mul", L(c), L(case["a"][n]))
+    (m, k), (_, p) = case["dims_a"], case["dims_b"]
+    i, j = n // p, n % p
+    t = ("L", kind, 0)
+    for q in range(k):
+        t = ("P", ("B", "add", t, ("P", ("B", "mul", L(case["a"][i * k + q]), L(case["b"][q * p + j])))))
+    return t[1]
+
+
+def arr_result_count(case):
+    cnt = 1
+    for x in case["dims_r"]:
+        cnt *= x
+    return cnt
